@@ -20,6 +20,13 @@ def gen_items(rng, n, depth, budget, allow_raise=True):
             items.append(["ctx", rng.randrange(n), rng.random() < 0.35, gen_items(rng, n, depth + 1, budget, allow_raise)])
         elif r < 0.42 and depth < 5:
             items.append(["exec", rng.randrange(n), gen_items(rng, n, depth + 1, budget, allow_raise)])
+        elif r < 0.45 and depth < 5 and allow_raise:
+            # a context whose enter hook raises (not entered at all) / whose exit hook raises (after the body): in the model these are
+            # `with ctx: raise` and `with ctx: body` followed by a raise - the state afterwards must be the same
+            if rng.random() < 0.5:
+                items.append(["ctxfail", rng.randrange(n), rng.random() < 0.35])
+            else:
+                items.append(["ctxexitfail", rng.randrange(n), rng.random() < 0.35, gen_items(rng, n, depth + 1, budget, False)])
         elif r < 0.80:
             items.append(["site", rng.choice(KINDS)])
         elif r < 0.86 and allow_import[0]:
@@ -63,6 +70,8 @@ def count_sites(items):
             c += 1
         elif it[0] == "ctx":
             c += count_sites(it[3])
+        elif it[0] == "ctxexitfail":
+            c += count_sites(it[3])
         elif it[0] == "exec":
             c += count_sites(it[2])
         elif it[0] == "try":
@@ -74,6 +83,10 @@ def count_ctx(items):
     c = 0
     for it in items:
         if it[0] == "ctx":
+            c += 1 + count_ctx(it[3])
+        elif it[0] == "ctxfail":
+            c += 1
+        elif it[0] == "ctxexitfail":
             c += 1 + count_ctx(it[3])
         elif it[0] == "exec":
             c += 1 + count_ctx(it[2])
@@ -92,6 +105,10 @@ def coq_items(items):
         k = it[0]
         if k == "ctx":
             out.append("ICtx %d %s [%s]" % (it[1], b(it[2]), coq_items(it[3])))
+        elif k == "ctxfail":
+            out.append("ICtx %d %s [IRaise]" % (it[1], b(it[2])))
+        elif k == "ctxexitfail":
+            out.append("ICtx %d %s [%s]; IRaise" % (it[1], b(it[2]), coq_items(it[3])))
         elif k == "exec":
             out.append("IExec %d [%s]" % (it[1], coq_items(it[2])))
         elif k == "site":
@@ -235,6 +252,15 @@ def reference_log(case):
                     run(it[3])
                 finally:
                     sp[it[1]].pop()
+            elif k == "ctxfail":
+                raise Raised()
+            elif k == "ctxexitfail":
+                sp[it[1]].append(not it[2])
+                try:
+                    run(it[3])
+                finally:
+                    sp[it[1]].pop()
+                raise Raised()
             elif k == "exec":
                 t = it[1]
                 sp[t].append(sp[t][-1] if sp[t] else True)
@@ -266,7 +292,7 @@ def shrink(case, fails):
     def variants(items):
         for i, it in enumerate(items):
             yield items[:i] + items[i + 1:]
-            body_ix = {"ctx": 3, "exec": 2, "try": 1}.get(it[0])
+            body_ix = {"ctx": 3, "exec": 2, "try": 1, "ctxexitfail": 3}.get(it[0])
             if body_ix is not None:
                 yield items[:i] + it[body_ix] + items[i + 1:]
                 for v in variants(it[body_ix]):
